@@ -36,7 +36,16 @@ pub static EXIT_AFTER_RUN: std::sync::atomic::AtomicBool = std::sync::atomic::At
 
 pub fn worker_loop(mut run: impl FnMut(u64) -> J) {
   let stdin = std::io::stdin();
-  let stdout = std::io::stdout();
+  // Mech prints to stdout in places (`step` with profiling, single-step mode): keep the protocol on
+  // a private duplicate of the pipe and point fd 1 at /dev/null.
+  let proto: std::fs::File = unsafe {
+    use std::os::unix::io::FromRawFd;
+    let fd = libc::dup(1);
+    let devnull = libc::open(b"/dev/null\0".as_ptr() as *const libc::c_char, libc::O_WRONLY);
+    if devnull >= 0 { libc::dup2(devnull, 1); libc::close(devnull); }
+    std::fs::File::from_raw_fd(fd)
+  };
+  let stdout = std::sync::Mutex::new(proto);
   for line in stdin.lock().lines() {
     let line = match line { Ok(l) => l, Err(_) => break };
     let mut it = line.split_whitespace();
@@ -45,12 +54,12 @@ pub fn worker_loop(mut run: impl FnMut(u64) -> J) {
         let a: u64 = it.next().unwrap().parse().unwrap();
         let b: u64 = it.next().unwrap().parse().unwrap();
         for k in a..b {
-          { let mut o = stdout.lock(); writeln!(o, "S {}", k).ok(); o.flush().ok(); }
+          { let mut o = stdout.lock().unwrap(); writeln!(o, "S {}", k).ok(); o.flush().ok(); }
           let r = run(k);
-          { let mut o = stdout.lock(); writeln!(o, "R {} {}", k, r).ok(); o.flush().ok(); }
+          { let mut o = stdout.lock().unwrap(); writeln!(o, "R {} {}", k, r).ok(); o.flush().ok(); }
           if EXIT_AFTER_RUN.load(std::sync::atomic::Ordering::SeqCst) { std::process::exit(0); }
         }
-        { let mut o = stdout.lock(); writeln!(o, "D").ok(); o.flush().ok(); }
+        { let mut o = stdout.lock().unwrap(); writeln!(o, "D").ok(); o.flush().ok(); }
       }
       Some("QUIT") | None => break,
       _ => {}
